@@ -95,7 +95,17 @@ def generate(r, tier, build):
 
 def corpus(build):
     from .gen_int import literal_sweep
-    return literal_sweep("u64,u32,f64,fill:9,jump,u64,f32,fill:3") + [
+    from . import harvest
+    # every harvested word (literals of the source and their simple derivatives and combinations) as a seed, and - for the Weyl generators - as
+    # the internal state at the first and at the second draw (seed = word - k * increment): a guard keyed on a constant anywhere near the
+    # input of the mixing function is reached
+    sweep = []
+    for w in harvest.words(C.REPO):
+        sweep.append("word gen=xoshiro seed=%d via=from_seed ops=u64,f32" % w)
+        for gen, inc in (("splitmix", 0x9e3779b97f4a7c15), ("wyrand", 0x2d358dccaa6c78a5)):
+            sweep.append("word gen=%s seed=%d via=from_seed ops=u64,u32" % (gen, w))
+            sweep.append("word gen=%s seed=%d via=from_seed ops=u64,u64" % (gen, (w - inc) & C.M64))
+    return sweep + literal_sweep("u64,u32,f64,fill:9,jump,u64,f32,fill:3") + [
         # published known-answer anchors and the crate's doc-test values
         "word gen=xoshiro state=1,2,3,4 via=serde ops=u64,u64,u64,u64",
         "word gen=splitmix seed=1234567 via=from_seed ops=u64,u64,u64,u64,u64",
